@@ -36,6 +36,7 @@ def library_ranges(mapfile):
 
 def make_history(h, desc, vals, fns, rng, length):
     steps = []
+    hand_made = rng.random() < 0.4      # in such a history every generated crystal is a hand-made struct whose volume member was left at 0
     while len(steps) < length:
         if rng.random() < 0.06:
             # a collection owned by the history step alone (init, load a generated file, add, list, look up, free): leaves nothing behind, so it is a
@@ -53,7 +54,7 @@ def make_history(h, desc, vals, fns, rng, length):
         if not sw:
             continue
         kinds, args = rng.choice(sw)
-        if args and isinstance(args[0], str) and args[0].startswith("g:") and rng.random() < 0.4:
+        if args and isinstance(args[0], str) and args[0].startswith("g:") and hand_made:
             args = ["h:" + args[0][2:]] + list(args[1:])      # the same generated cell as a hand-made struct with its volume member left at 0
         steps.append((fn, kinds, args))
         if rng.random() < 0.5 and kinds:
@@ -64,6 +65,8 @@ def make_history(h, desc, vals, fns, rng, length):
                 o = rng.choice(others)
                 a2 = list(args)
                 a2[pos] = o[pos]
+                if hand_made and isinstance(a2[0], str) and a2[0].startswith("g:"):
+                    a2[0] = "h:" + a2[0][2:]
                 steps.append((fn, kinds, a2))
                 if rng.random() < 0.4:
                     steps.append((fn, kinds, list(args)))
